@@ -1027,8 +1027,8 @@ func c02NoFrameDropped(c *core.Ctx) {
 				}
 				// only frames received in this function (not the peeked one, which was saved earlier)
 				if !core.OriginIs(kc.Call.Args[0], func(o ssa.Value) bool {
-					cr, _, ok := core.CallResult(o)
-					return ok && core.InfoOf(&cr.Call).Static != nil && receivesFromParam(core.InfoOf(&cr.Call).Static)
+					cr := core.ResultPart(o)
+					return cr != nil && core.InfoOf(&cr.Call).Static != nil && receivesFromParam(core.InfoOf(&cr.Call).Static)
 				}) {
 					continue
 				}
